@@ -4,7 +4,7 @@
    DataRow::~DataRow / DataTable::pvDeallocateFreeRaws / pvAllocateRaw / pvDestroyRaws on every run and whose extracted
    code is replayed against event traces of the real DataTable. *)
 From Coq Require Import List Arith Bool Permutation.
-From C19 Require Import Treiber TreiberInv TreiberThms TreiberRace TreiberLive TreiberVariant TreiberExact TreiberBoundary TreiberRows TreiberTables FreeListRefine PoolAssumptions RawPoolSize FreeListSteps TreiberCreate TableOpsRefine TreiberExamples.
+From C19 Require Import Treiber TreiberInv TreiberThms TreiberRace TreiberLive TreiberVariant TreiberExact TreiberBoundary TreiberRows TreiberTables FreeListRefine PoolAssumptions RawPoolSize FreeListSteps TreiberCreate TableOpsRefine RowCreateRefine TreiberExamples.
 From Coq Require Import ZArith.
 From MomoCommon Require Import GenPrelude.
 From C19 Require FreeListPrims Gen_DataRow Gen_FreeListOwner Gen_MemPoolConst Gen_RawPool Gen_DataRowOps Gen_TableSwap Gen_TableCrew.
@@ -622,6 +622,27 @@ Theorem C19_generated_table_move_takes_crew_and_pool :
   forall c r p i a b c0 d0, Gen_TableSwap.MoveCtor a b c0 d0 c r p i = (c, r, p, i).
 Proof. exact generated_table_move_takes_crew_and_pool. Qed.
 Print Assumptions C19_generated_table_move_takes_crew_and_pool.
+
+(* ---- Where a Row's list pointer comes from: DataTable::pvMakeRow and the protected DataRow constructor are translated
+   (Gen_MakeRow.v, Gen_DataRowOps.Ctor3): the Row the table hands out holds (the table's column list, the buffer, THE ADDRESS OF THE
+   TABLE'S LIST HEAD) ... *)
+Theorem C19_generated_make_row_points_to_the_tables_head :
+  forall crew_head cl raw, made_row crew_head cl raw = (cl, raw, crew_head).
+Proof. exact generated_make_row_points_to_the_tables_head. Qed.
+Print Assumptions C19_generated_make_row_points_to_the_tables_head.
+
+(* ... so, over generated code only (no "mFreeRaws := head" by fiat): a Row made by the table and destroyed by the generated
+   destructor pushes onto the very head the owner drains; it is the machine's DBegin;DLoad;DLink;DCas *)
+Theorem C19_row_made_by_the_table_pushes_onto_the_tables_head :
+  forall s t r sp fuel,
+  dpcs s t = Idle -> status s r = Detached -> (exists k, (k < fuel)%nat /\ sp k = false) ->
+  let '(cl, raw, fr) := made_row hd 1%Z (addr r) in
+  exists s' m',
+    run s [DBegin t r; DLoad t; DLink t; DCas t false] = Some s' /\
+    Gen_DataRow.destroy sp fuel raw fr cl (mem_of s) 5%Z = Ok (tt, m', 5%Z) /\
+    forall a, m' a = mem_of s' a.
+Proof. exact row_made_by_the_table_pushes_onto_the_tables_head. Qed.
+Print Assumptions C19_row_made_by_the_table_pushes_onto_the_tables_head.
 
 (* Non-vacuity: a 3-thread schedule with a genuinely failed CAS ... *)
 Theorem C19_nonvacuous_failed_cas :
